@@ -138,6 +138,53 @@ def rand_keys(rng, ksh, n):
     return [{'int': str(k)} for k in ks]
 
 
+def rand_cmp_shape(rng, depth=3):
+    """a COMPARABLE shape with at least three leaves under nested pairs (right combs, left-nested pairs, option / or inside):
+    the key types on which COMPARE and the ordered collections have to look through annotated inner pair nodes"""
+    def leaf(d):
+        k = rng.random()
+        if d <= 0 or k < 0.55:
+            return (rng.choice(['nat', 'int', 'string', 'bytes', 'bool']),)
+        if k < 0.75:
+            return ('pair', leaf(d - 1), leaf(d - 1))
+        if k < 0.88:
+            return ('option', leaf(d - 1))
+        return ('or', leaf(d - 1), leaf(d - 1))
+    n = rng.choice([3, 3, 4, 5])
+    leaves = [leaf(depth - 1) for _ in range(n)]
+    if rng.random() < 0.75:
+        t = leaves[-1]
+        for x in reversed(leaves[:-1]):
+            t = ('pair', x, t)
+    else:
+        t = leaves[0]
+        for x in leaves[1:]:
+            t = ('pair', t, x)
+    return t
+
+
+def small_value(rng, sh):
+    """values from a tiny domain per leaf, so that two draws often share a prefix or are equal"""
+    p = sh[0]
+    if p == 'nat':
+        return {'int': str(rng.choice([0, 1, 2]))}
+    if p == 'int':
+        return {'int': str(rng.choice([-1, 0, 1]))}
+    if p == 'string':
+        return {'string': rng.choice(['', 'a', 'b'])}
+    if p == 'bytes':
+        return {'bytes': rng.choice(['', '00', '01'])}
+    if p == 'bool':
+        return {'prim': rng.choice(['True', 'False'])}
+    if p == 'pair':
+        return {'prim': 'Pair', 'args': [small_value(rng, sh[1]), small_value(rng, sh[2])]}
+    if p == 'option':
+        return {'prim': 'None'} if rng.random() < 0.3 else {'prim': 'Some', 'args': [small_value(rng, sh[1])]}
+    if p == 'or':
+        return {'prim': 'Left', 'args': [small_value(rng, sh[1])]} if rng.random() < 0.5 else {'prim': 'Right', 'args': [small_value(rng, sh[2])]}
+    raise ValueError(sh)
+
+
 # ---------------------------------------------------------------------------------------------- printer
 def fmt_type(ty, top=False):
     s = ty['prim']
@@ -272,6 +319,8 @@ class ProgGen:
         big = bool(S) and tsize(top) > self.max_tsize
         if len(S) < self.max_stack:
             cands += ['PUSH'] * (4 if len(S) < 2 else 1)
+            # the same composite value under independently annotated types, compared / used as a collection key
+            cands += ['CMP_PAIRS', 'SET_PAIRS', 'MAP_PAIRS']
         if S:
             cands += ['DROP', 'DUP', 'GET0']        # GET 0 :: a : S -> a : S, any a
             if not big:
@@ -300,6 +349,29 @@ class ProgGen:
         if c == 'PUSH':
             sh = rand_shape(rng, rng.choice([1, 2, 3]), rng.choice([0.3, 0.7, 0.9]))
             return [self.push(sh)], [sh] + S
+        if c in ('CMP_PAIRS', 'SET_PAIRS', 'MAP_PAIRS'):
+            K = rand_cmp_shape(rng)
+            v1 = small_value(rng, K)
+            v2 = v1 if rng.random() < 0.4 else small_value(rng, K)
+            ty = lambda: self.ty(K, rng.choice([0.0, 0.5, 0.9]))
+            P = lambda v: {'prim': 'PUSH', 'args': [ty(), v]}
+            T = {'prim': 'PUSH', 'args': [{'prim': 'bool'}, {'prim': 'True'}]}
+            if c == 'CMP_PAIRS':
+                return [P(v1), P(v2), {'prim': 'COMPARE'}], [('int',)] + S
+            if c == 'SET_PAIRS':
+                ins = [{'prim': 'EMPTY_SET', 'args': [ty()]}, T, P(v1), {'prim': 'UPDATE'}, T, P(v2), {'prim': 'UPDATE'}]
+                if rng.random() < 0.5:
+                    return ins + [P(v1), {'prim': 'MEM'}], [('bool',)] + S
+                if rng.random() < 0.5:
+                    return ins + [{'prim': 'PUSH', 'args': [{'prim': 'bool'}, {'prim': 'False'}]}, P(v1), {'prim': 'UPDATE'}, {'prim': 'SIZE'}], [('nat',)] + S
+                return ins + [{'prim': 'SIZE'}], [('nat',)] + S
+            one_ = {'prim': 'PUSH', 'args': [{'prim': 'option', 'args': [{'prim': 'nat'}]}, {'prim': 'Some', 'args': [{'int': str(rng.randrange(9))}]}]}
+            ins = [{'prim': 'EMPTY_MAP', 'args': [ty(), {'prim': 'nat'}]}, one_, P(v1), {'prim': 'UPDATE'}, one_, P(v2), {'prim': 'UPDATE'}]
+            if rng.random() < 0.5:
+                return ins + [P(v1), {'prim': 'GET'}], [('option', ('nat',))] + S
+            if rng.random() < 0.5:
+                return ins + [{'prim': 'PUSH', 'args': [{'prim': 'option', 'args': [{'prim': 'nat'}]}, {'prim': 'None'}]}, P(v2), {'prim': 'UPDATE'}, {'prim': 'SIZE'}], [('nat',)] + S
+            return ins + [P(v2), {'prim': 'MEM'}], [('bool',)] + S
         if c == 'DROP':
             return [{'prim': 'DROP'}], S[1:]
         if c == 'DUP':
@@ -398,7 +470,7 @@ class ProgGen:
 FIELD_INSTR = {'CAR', 'CDR', 'LEFT', 'RIGHT'}
 # instructions on which Michelson accepts a variable annotation
 VAR_INSTR = {'PUSH', 'CAR', 'CDR', 'PAIR', 'GET', 'UPDATE', 'SOME', 'NIL', 'NONE', 'LEFT', 'RIGHT', 'PACK', 'UNPACK', 'CONS', 'DUP',
-             'LAMBDA', 'EXEC', 'EMPTY_MAP'}
+             'LAMBDA', 'EXEC', 'EMPTY_MAP', 'EMPTY_SET', 'COMPARE', 'MEM', 'SIZE'}
 
 
 def reannotate(rng, seq, mode='random'):
